@@ -727,3 +727,14 @@ def run(ctx):
     # the derivative-based Milstein term becomes zero and the step is Euler's; rule of C13)
     from . import c13
     ctx.guard(c13.r13_1)
+
+
+_run_before_r16_10 = run
+
+
+def run(ctx):
+    _run_before_r16_10(ctx)
+    # the derivative-based Milstein term is differentiated by autograd: where autograd records nothing (inference mode) the
+    # step must fail rather than silently be Euler's (rule of C16)
+    from . import c16
+    ctx.guard(c16.r16_10)
